@@ -64,6 +64,16 @@ CLAIMED = {
              "with field-wise equality to the description and an independent RFC reference encoder as oracles.",
         technique="Coq proof (element round-trip lemmas composed by induction over sections) + model/implementation correspondence",
         ref="DESIGN.md section 6, C02"),
+    "C05": dict(
+        text="Kernel-checked theorems: if Packet::parse accepts d, an independent envelope reader (names, fixed 10-byte RR header, "
+             "RDLENGTH skip) succeeds on d and the questions / records correspond one-to-one and in order to its entries (owner, "
+             "type, class, cache-flush, TTL), each record's RDATA being what the RDATA parser yields on the message cut at the end "
+             "of that entry's RDLENGTH (locality), the first OPT being the lifted one; hence messages whose counts or lengths run "
+             "past the end are rejected; the cursor lemma shows a record always ends at start+10+RDLENGTH. Tied to /repo by "
+             "messages with RDLENGTH larger / smaller than the typed content followed by further records, with a python walker and "
+             "per-record re-parsing of RDLENGTH-delimited prefixes as oracles.",
+        technique="Coq proof (cursor and locality lemmas, Forall2 over sections) + model/implementation correspondence with an independent envelope walker",
+        ref="DESIGN.md section 6, C05"),
 }
 
 PENDING_REASON = "not claimed yet: model, theorems and correspondence slice for this property are still being built (see DESIGN.md section 10)"
